@@ -324,6 +324,8 @@ func resolveScalarBatch(sources []interface{}, typ *Scalar, destinations []*outp
 		}
 		res, err := typ.Unwrapper(source)
 		if err != nil {
+			// Record the error at the value that failed, not at the first of the batch.
+			destinations[i].Fail(err)
 			return err
 		}
 		destinations[i].Fill(res)
@@ -400,7 +402,10 @@ func resolveUnionBatch(ctx context.Context, sources []interface{}, typ *Union, s
 				continue
 			}
 			if srcType != "" {
-				return nil, fmt.Errorf("union type field should only return one value, but received: %s %s", srcType, typString)
+				err := fmt.Errorf("union type field should only return one value, but received: %s %s", srcType, typString)
+				// Record the error at the value that failed, not at the first of the batch.
+				destinations[idx].Fail(err)
+				return nil, err
 			}
 			srcType = typString
 			sourcesByType[srcType] = append(sourcesByType[srcType], inner.Interface())
